@@ -178,11 +178,12 @@ def stagewise(obj, rng):
     return mg
 
 
-def explore_and_validate(mol: Mol, g, max_nodes=6000, max_seconds=60, qgrid=None, tag="inst", parse_text=None, call=None):
+def explore_and_validate(mol: Mol, g, max_nodes=6000, max_seconds=60, qgrid=None, tag="inst", parse_text=None, call=None, entry="Molecule"):
     text = parse_text or mol.text()
     t0 = time.time()
     try:
-        obj = g.Molecule(text)
+        # entry points: Molecule(text), or - for a molecule that is one stochastic object - Stochastic(text, 0) as in the README
+        obj = g.Molecule(text) if entry == "Molecule" else g.Stochastic(text, 0)
     except Exception as exc:
         r = TraceResult()
         r.error = "parse-failed"
